@@ -115,3 +115,29 @@ pub fn wire_of_list(list: CommandList) -> Vec<u8> {
     let v = sink.lock().unwrap().clone();
     v
 }
+
+/// Parse a server byte stream with the real blocking connection and return the real responses
+/// (stops at the first terminal result). The greeting is served in its own read.
+pub fn parse_responses(stream: &[u8]) -> Vec<mpd_protocol::response::Response> {
+    let io = ScriptIo::new(vec![GREETING.to_vec(), stream.to_vec()]);
+    let mut conn = Connection::connect(io).expect("harness greeting accepted");
+    let mut out = Vec::new();
+    while let Ok(Some(r)) = conn.receive() {
+        out.push(r);
+    }
+    out
+}
+
+/// Like `parse_responses`, but also reports how the stream ended (`Ok(())` = clean end).
+pub fn parse_responses_checked(stream: &[u8]) -> (Vec<mpd_protocol::response::Response>, Result<(), mpd_protocol::MpdProtocolError>) {
+    let io = ScriptIo::new(vec![GREETING.to_vec(), stream.to_vec()]);
+    let mut conn = Connection::connect(io).expect("harness greeting accepted");
+    let mut out = Vec::new();
+    loop {
+        match conn.receive() {
+            Ok(Some(r)) => out.push(r),
+            Ok(None) => return (out, Ok(())),
+            Err(e) => return (out, Err(e)),
+        }
+    }
+}
